@@ -18,6 +18,7 @@ type c02Case struct {
 	Graph       *m.Graph `json:"graph"`
 	ProfileText string   `json:"profile_text"`
 	DataText    string   `json:"data_text"`
+	Route       int      `json:"route,omitempty"` // entry point producing the report (see validateVia)
 }
 
 type pgen struct {
@@ -193,6 +194,7 @@ func genC02(t *rapid.T) c02Case {
 	c.PathText = p.Print(pathStyle(t))
 	c.ProfileText = pathProfile("c02", c.PathText)
 	c.DataText = g.JSONLD(m.LDOpts{})
+	c.Route = rapid.SampledFrom([]int{0, 0, 1, 2, 3}).Draw(t, "route")
 	return c
 }
 
@@ -232,7 +234,7 @@ func decideC02(c c02Case) ev.Verdict {
 	}
 	// the profile is a function of the path text (saved replay cases may predate a change of its shape)
 	c.ProfileText = pathProfile("c02", c.PathText)
-	res := validateFixed(c.ProfileText, c.DataText)
+	res := validateVia(c.Route, c.ProfileText, c.DataText)
 	if res.failed() {
 		return ev.Violation("c02-call-failed:"+classifyErr(res), "path %q: validation failed: %s\n%s", c.PathText, trunc(res.errString(), 500), c.ProfileText)
 	}
